@@ -45,6 +45,14 @@ theorem generated_defs_pinned :
        "BaseStepper_init_attr_num_points", "BaseStepper_init_attr_dt", "BaseStepper_init_attr_num_channels",
        "BaseStepper_init_attr_dx"] := rfl
 
+/-- only `Wave` defines its own `step_fourier` (regenerated and proved equal to the wave model in `Proofs/SpectralOpsEq.lean`);
+    NO stepper class defines its own `step` or `__call__` -/
+theorem stepper_overrides_pinned : stepper_overrides = [("Wave", ["step_fourier"])] := rfl
+
+theorem no_stepper_overrides_step_or_call :
+    ∀ p ∈ stepper_overrides, "step" ∉ p.2 ∧ "__call__" ∉ p.2 := by
+  decide
+
 /-- the derivative operator handed to both builders is that of the user's `(D, L, N)`, default `"ij"` indexing -/
 theorem derivative_operator_args (a : BaseStepperArgs ℂ) :
     BaseStepper_init_derivative_operator_args a = (a.num_spatial_dims, a.domain_extent, a.num_points, "ij") := rfl
